@@ -11,10 +11,34 @@ from .facts import is_local
 
 
 class Sym:
-    def __init__(self, fn, max_depth=12):
+    def __init__(self, fn, max_depth=12, facts=None):
         self.fn = fn
         self.max_depth = max_depth
         self._memo = {}
+        self.facts = facts
+        self._caps = None
+
+    def captures(self):
+        """for a closure body: descriptions (in the parent function's terms) of the captured operands"""
+        if self._caps is not None:
+            return self._caps
+        self._caps = {}
+        fn = self.fn
+        if fn.kind != 'closure' or self.facts is None:
+            return self._caps
+        parent = None
+        for g in self.facts.by_path.get(fn.parent, []):
+            if g.crate == fn.crate:
+                parent = g
+        if parent is None:
+            return self._caps
+        ps = Sym(parent, self.max_depth, self.facts)
+        for blk in parent.blocks:
+            for s in blk['s']:
+                if s['k'] == 'assign' and s['rv']['r'] == 'agg' and s['rv']['k'] == 'closure' and s['rv'].get('def') == fn.path:
+                    for i, o in enumerate(s['rv']['o']):
+                        self._caps[i] = ps.operand(o, 2)
+        return self._caps
 
     def local(self, n, depth=0, seen=()):
         fn = self.fn
@@ -54,8 +78,22 @@ class Sym:
         return out
 
     def place(self, pl, depth=0, seen=()):
-        base = self.local(pl[0], depth, seen)
-        for e in pl[1:]:
+        rest = pl[1:]
+        base = None
+        if self.fn.kind == 'closure' and pl[0] == 1 and self.facts is not None:
+            caps = self.captures()
+            k = None
+            if len(pl) >= 3 and pl[1] == '*' and isinstance(pl[2], list) and pl[2][0] == 'f':
+                k, rest = pl[2][1], pl[3:]
+            elif len(pl) >= 2 and isinstance(pl[1], list) and pl[1][0] == 'f':
+                k, rest = pl[1][1], pl[2:]
+            if k is not None and k in caps:
+                base = caps[k]
+            else:
+                rest = pl[1:]
+        if base is None:
+            base = self.local(pl[0], depth, seen)
+        for e in rest:
             if e == '*':
                 if base[0] == 'ref':
                     base = base[1]
